@@ -42,6 +42,16 @@ UNIT = Unit(
            obligation="the lifted tuple's type is TTuple of the LIFTED items' types, in order",
            contract="ensures r matches LiftExpr::ETuple { items: li, ty } && (ty matches Ty::TTuple { typs } && item_tys(li@, typs@)),",
            loop_fn=lambda k, header, kw: TUPLE_LOOPS(header)),
+        Fn(file=L, name="transform_expr", rename="lift_array", ret="r", attrs="#[verifier::loop_isolation(false)]", rules=["attrs", ("strip", "tast::")],
+           cut_from="MonoExpr::EArray { items, ty } => {", cut_inside=True, cut_before="@block-end", cut_tail="",
+           sig="fn lift_array(state: &mut State, scope: &mut Scope, items: Vec<MonoExpr>, ty: Ty) -> LiftExpr",
+           pre_rewrites=[(re.compile(r"let items = items\s*\.into_iter\(\)\s*\.map\(\|item\| transform_expr\(state, scope, item\)\)\s*\.collect\(\);"),
+                          "let items = items.into_iter().map(|item| transform_expr(state, scope, item)).collect::<Vec<_>>();", "*"), INTO_MAP],
+           rewrites=[VC],
+           obligation="an array literal whose lifted items hold closure environments is typed as an array OF THAT TYPE (as tuples are), so that an element taken "
+                      "out again is still called through its apply function — FAILS on the pinned tree (KNOWN FINDING: the array keeps its pre-lifting type)",
+           contract="ensures r matches LiftExpr::EArray { items: li, ty: at } && array_items_typed(final(state), li@, at),",
+           loop_fn=lambda k, header, kw: ("invariant true,\ndecreases __src@.len()," if "__src.len()" in header else None)),
         Fn(file=L, name="transform_expr", rename="lift_proj", ret="r", rules=["attrs", ("strip", "tast::")],
            cut_from="MonoExpr::EProj { tuple, index, ty } => {", cut_inside=True, cut_before="@block-end", cut_tail="",
            sig="fn lift_proj(state: &mut State, scope: &mut Scope, tuple: Box<MonoExpr>, index: usize, ty: Ty) -> LiftExpr",
